@@ -2,7 +2,7 @@
    parametric in the tables T (today's tables: Gen/C19Tables.v; `wf T` is re-decided in C19/Inst.v).
    Only statements closed by `exact`, each followed by Print Assumptions.
    `chars out` is the LaTeX string the implementation returns; trees are arbitrary (no size bound). *)
-From S2T Require Import Lib.PyStr C19.Model C19.Proofs C19.TextSpec C19.Texts.
+From S2T Require Import Lib.PyStr C19.Model C19.Proofs C19.TextSpec C19.Texts C19.Depth.
 From Coq Require Import List Bool.
 Import ListNotations.
 
@@ -176,3 +176,19 @@ Theorem C19_texts_in_order_partial : forall T t out,
   txt_of out = greek_str T (texts_root t).
 Proof. intros T t out H1 H2 H3. exact (convert_texts T H1 t out H2 H3). Qed.
 Print Assumptions C19_texts_in_order_partial.
+
+(* ---- recursion depth (C19/Depth.v).  conv_depth T t is the maximal number of nested process_element frames during
+   omml_to_latex(t) (tied to the code by measuring the real frames on every generated tree); it never exceeds the
+   height of the tree, so the conversion needs at most height(t) interpreter frames: no other source of depth. *)
+Theorem C19_depth_bounded : forall T t,
+  (conv_depth T t <= height t)%nat /\ (rec_depth T t <= S (height t))%nat.
+Proof. intros T t. exact (conj (conv_depth_bd T t) (proj1 (rec_depth_bd T t))). Qed.
+Print Assumptions C19_depth_bounded.
+
+(* ... and for plain containers (every element on the default branch) the recursion depth EQUALS the tree depth,
+   so the bound is attained: a chain of n nested containers needs n frames *)
+Theorem C19_depth_equals_height_default : forall T t,
+  (all_default T t = true -> rec_depth T t = height t)
+  /\ (forallb (all_default T) (ochildren t) = true -> conv_depth T t = hmax (ochildren t)).
+Proof. intros T t. exact (conj (rec_depth_default T t) (conv_depth_default T t)). Qed.
+Print Assumptions C19_depth_equals_height_default.
